@@ -172,6 +172,17 @@ class ClassRef(object):
                 raise Unsupported("class %s: attribute %s would come from the unmodelled base %r" % (self.name, name, b))
         return None, None
 
+    def mro(self):
+        """linearisation of a single-inheritance chain of repository classes (ends with object)."""
+        out, c = [], self
+        while isinstance(c, ClassRef):
+            out.append(c)
+            bs = [b for b in c.bases() if b is not object]
+            if len(bs) > 1 or (bs and not isinstance(bs[0], ClassRef)):
+                raise Unsupported("__mro__ of %s: multiple or unmodelled bases" % self.name)
+            c = bs[0] if bs else None
+        return tuple(out) + (object,)
+
     def is_sub(self, other):
         if other is self:
             return True
@@ -501,7 +512,8 @@ class Interp(object):
 
     # ---------------------------------------------------------------- attribute protocol
     def getattr_(self, obj, attr, node=None):
-        if attr.startswith("__") and attr not in ("__name__", "__class__") and not (attr == "__init__" and isinstance(obj, (Instance, ClassRef, SuperProxy))):
+        if attr.startswith("__") and attr not in ("__name__", "__class__") and not (attr == "__init__" and isinstance(obj, (Instance, ClassRef, SuperProxy))) \
+                and not (attr == "__mro__" and isinstance(obj, ClassRef)):
             special = None
             if attr.endswith("__") and isinstance(obj, (Instance, SuperProxy)):
                 # a special method DEFINED by a repository class, called by name (reg.__delitem__(k), super().__delitem__(k))
@@ -528,6 +540,8 @@ class Interp(object):
         if isinstance(obj, ClassRef):
             if attr == "__name__":
                 return obj.name
+            if attr == "__mro__":
+                return obj.mro()
             m, c = obj.find(attr)
             if m is None:
                 raise ProgramError(AttributeError("class %s has no attribute %s" % (obj.name, attr)), getattr(node, "lineno", None))
